@@ -329,7 +329,9 @@ def run_case(case):
                 if op.get("use_files"):
                     ex = existing(root, fs, cfg)
                     chosen = [f for i, f in enumerate(ex) if (op["use_files"] >> (i % 16)) & 1] or ex[:1]
-                    if not chosen:
+                    if op.get("empty_files") and name in ("move", "delete") and ex:
+                        chosen = []
+                    elif not chosen:
                         r["skipped"] = "no file to pick"
                         records.append({"op": r, "out": {"status": "skipped"}, "after": listing(root)})
                         continue
